@@ -1461,3 +1461,149 @@ func (c *Ctx) ruleFreshMap() {
 		c.unresolved("childTries stores in Snapshot/DeepCopy")
 	}
 }
+
+// R-CHILDINPLACE (C08): a child trie obtained from the state is never mutated in place.
+func (c *Ctx) ruleChildInPlace() {
+	dir := "lib/runtime/storage"
+	c.doc("R-CHILDINPLACE", dir+": no Put/Delete/ClearPrefix/ClearPrefixLimit is invoked on a trie obtained through GetChild: the parent trie stores the child's root hash (and keys its child map by it), so a child changed in place leaves the parent's entry and the state root stale; child tries are changed only through PutIntoChild/ClearFromChild/DeleteChild of the parent")
+	sp := c.ssaPkg(dir)
+	if sp == nil {
+		return
+	}
+	mut := map[string]bool{"Put": true, "Delete": true, "ClearPrefix": true, "ClearPrefixLimit": true, "PutIntoChild": true, "ClearFromChild": true, "DeleteChild": true}
+	n := 0
+	for _, f := range allFuncs(c, sp) {
+		ord := 0
+		eachInstr(f, func(_ *ssa.BasicBlock, _ int, in ssa.Instruction) {
+			call, ok := in.(*ssa.Call)
+			if !ok || !call.Call.IsInvoke() {
+				return
+			}
+			if call.Call.Method.Name() == "GetChild" {
+				n++
+			}
+			if !mut[call.Call.Method.Name()] {
+				return
+			}
+			fromChild := false
+			for v := range backwardSlice(call.Call.Value, nil) {
+				if gc, ok := v.(*ssa.Call); ok && gc.Call.IsInvoke() && gc.Call.Method.Name() == "GetChild" {
+					fromChild = true
+				}
+			}
+			if !fromChild {
+				return
+			}
+			ord++
+			c.ob("R-CHILDINPLACE", fmt.Sprintf("%s:%s-on-child#%d", relName(f.String()), call.Call.Method.Name(), ord), call.Pos(), false,
+				shortFn(f)+" calls "+call.Call.Method.Name()+" on a child trie returned by GetChild: the child root stored in the parent trie is not updated")
+		})
+	}
+	c.ob("R-CHILDINPLACE", "GetChild-results-examined", token.NoPos, n > 0, fmt.Sprintf("%d GetChild calls examined", n))
+}
+
+// R-LIMITKEYS / R-ALLDELETED / R-OVERLAY/namespace (C08): the bookkeeping of limited deletions and of the two key spaces.
+func (c *Ctx) ruleOverlayBookkeeping() {
+	dir := "lib/runtime/storage"
+	c.doc("R-LIMITKEYS", dir+" storageDiff.deleteChildLimit/clearPrefix: a key list that merges state keys with the transaction's upserted keys takes each upserted key only under a membership test against the other source (no key twice; an overwritten state key is not a key 'created during the block')")
+	c.doc("R-ALLDELETED", dir+" storageDiff.clearPrefix: the `all deleted` result compares the number deleted with a count of keys that HAVE the prefix, not with a list that also holds unrelated pending writes")
+	c.doc("R-OVERLAY/namespace", dir+": the function that marks a MAIN key deleted does not also drop or mark a child trie of the same name (main keys and child-trie names are different key spaces)")
+	isMapsKeysOf := func(v ssa.Value, field string) bool {
+		call, ok := v.(*ssa.Call)
+		if !ok {
+			return false
+		}
+		cal := call.Call.StaticCallee()
+		if cal != nil && cal.Origin() != nil {
+			cal = cal.Origin()
+		}
+		if cal == nil || cal.Name() != "Keys" || cal.Pkg == nil || !strings.HasSuffix(cal.Pkg.Pkg.Path(), "/maps") && cal.Pkg.Pkg.Path() != "maps" {
+			return false
+		}
+		_, fv, ok := fieldLoad(call.Call.Args[0])
+		return ok && fv != nil && fv.Name() == field
+	}
+	// ---- R-LIMITKEYS: deleteChildLimit
+	if f := c.fn(dir, "(*storageDiff).deleteChildLimit"); f == nil {
+		c.unresolved("(*storageDiff).deleteChildLimit")
+	} else {
+		// an unfiltered maps.Keys(upserts) must not be appended to (a clone of) the state key list
+		bad := ""
+		eachInstr(f, func(_ *ssa.BasicBlock, _ int, in ssa.Instruction) {
+			call, ok := in.(*ssa.Call)
+			if !ok || calleeName(&call.Call) != "builtin.append" || len(call.Call.Args) != 2 {
+				return
+			}
+			if isMapsKeysOf(call.Call.Args[1], "upserts") {
+				fromParam := false
+				for v := range backwardSlice(call.Call.Args[0], nil) {
+					if _, ok := v.(*ssa.Parameter); ok {
+						fromParam = true
+					}
+				}
+				if fromParam {
+					bad = c.pos(call.Pos())
+				}
+			}
+		})
+		c.ob("R-LIMITKEYS", "deleteChildLimit:upserted-keys-filtered", f.Pos(), bad == "", "every upserted key is appended to the state key list unfiltered at "+bad+": an overwritten state key is listed twice and never counts towards the limit")
+	}
+	// ---- R-ALLDELETED: clearPrefix
+	if f := c.fn(dir, "(*storageDiff).clearPrefix"); f == nil {
+		c.unresolved("(*storageDiff).clearPrefix")
+	} else {
+		bad := ""
+		for _, r := range returnsOf(f) {
+			if len(r.Results) < 2 {
+				continue
+			}
+			cmp, ok := resultOf(r, 1).(*ssa.BinOp)
+			if !ok || cmp.Op != token.EQL {
+				continue
+			}
+			for _, side := range []ssa.Value{cmp.X, cmp.Y} {
+				lc, ok := stripConv(side).(*ssa.Call)
+				if !ok || calleeName(&lc.Call) != "builtin.len" {
+					continue
+				}
+				for v := range backwardSlice(lc.Call.Args[0], nil) {
+					if isMapsKeysOf(v, "upserts") {
+						bad = c.pos(r.Pos())
+					}
+				}
+			}
+		}
+		c.ob("R-ALLDELETED", "clearPrefix:all-deleted-counts-matching-keys", f.Pos(), bad == "", "the `all deleted` result at "+bad+" compares with the length of a list seeded with every pending upsert, whatever its prefix")
+	}
+	// ---- namespace
+	if f := c.fn(dir, "(*storageDiff).delete"); f == nil {
+		c.unresolved("(*storageDiff).delete")
+	} else {
+		touchesChild, marks := false, false
+		eachInstr(f, func(_ *ssa.BasicBlock, _ int, in ssa.Instruction) {
+			switch x := in.(type) {
+			case *ssa.Call:
+				if calleeName(&x.Call) == "builtin.delete" {
+					if _, fv, ok := fieldLoad(x.Call.Args[0]); ok && fv != nil && fv.Name() == "childChangeSet" {
+						touchesChild = true
+					}
+				}
+			case *ssa.MapUpdate:
+				if _, fv, ok := fieldLoad(x.Map); ok && fv != nil && fv.Name() == "deletes" {
+					marks = true
+				}
+			}
+		})
+		// who calls it with a main key: TrieState.Delete
+		mainCaller := false
+		if d := c.fn(dir, "(*TrieState).Delete"); d != nil {
+			eachInstr(d, func(_ *ssa.BasicBlock, _ int, in ssa.Instruction) {
+				if call, ok := in.(*ssa.Call); ok && call.Call.StaticCallee() == f {
+					mainCaller = true
+				}
+			})
+		}
+		c.ob("R-OVERLAY/namespace", "storageDiff.delete:main-key-delete-leaves-children-alone", f.Pos(), !(touchesChild && marks && mainCaller),
+			"TrieState.Delete(main key) goes through storageDiff.delete, which also drops childChangeSet[key] and sets the marker that the child readers and applyToTrie take for `child trie deleted`")
+	}
+}
